@@ -314,15 +314,37 @@ func verif_client_GracefulClose(ctl *Control, d time.Duration) {
 	verif.Ensures(verif.CalledBefore("proxy.Manager).Close", "Control).closeSession") && verif.CalledBefore("visitor.Manager).Close", "Control).closeSession"), "proxies_and_visitors_stopped_before_the_session_closes")
 }
 
+// The connector factory of a service (NewConnector, or the ssh gateway's
+// virtual connector): unknown code that builds a connector from the context
+// and the common configuration; assumed (listed) not to touch the service.
+//
+//verif:fieldfn Service connectorCreator
+func verifSpec_connectorCreator(ctx context.Context, cfg *v1.ClientCommonConfig) Connector {
+	verif.HavocExcept("H.client.Service.", "H.client.Control.", "H.client.SessionContext.", "H.pkg.config.v1.", "H.pkg.msg.")
+	c := verif.Any[Connector]()
+	verif.Assume(c != nil, "the connector factory returns a connector")
+	return c
+}
+
 // login: a connection and its connector, or an error (then the connector that
 // was opened has been closed again).
 //
 //verif:contract (*~/client.Service).login
-//verif:props C14 C05
+//verif:props C14 C05 C12
 func verif_client_login(svr *Service) {
 	verif.Requires(svr.common != nil && svr.authSetter != nil, "constructed_by_NewService")
+	runID0 := svr.runID
 	verif.ResetEvents()
 	conn, connector, err := svr.login()
+	// C12 "re-login replaces cleanly": the run id the server handed out is what
+	// the next login presents (the server replaces the old session by it), so
+	// an attempt that fails or is refused must leave it alone
+	if err != nil {
+		verif.Ensures(svr.runID == runID0, "refused_or_failed_login_keeps_the_run_id")
+	}
+	if lm, isLogin := verif.NthArg[msg.Message]("msg.WriteMsg", 0, 1).(*msg.Login); verif.Called("msg.WriteMsg") && isLogin {
+		verif.Ensures(lm.RunID == runID0, "login_presents_the_run_id_of_the_previous_session")
+	}
 	if err == nil {
 		verif.Ensures(conn != nil && connector != nil, "connection_and_connector")
 		verif.Ensures(verif.Called("Setter).SetLogin") && verif.RetErr("Setter).SetLogin", 0) == nil && verif.CalledBefore("Setter).SetLogin", "msg.WriteMsg"), "login_signed_before_it_is_sent")
